@@ -41,7 +41,7 @@ def run(ctx):
     ctx.rule('C20-R1', 'log2i<IntT> for the 8 integer types: result = (W-1) - clz(v) with W the bit width of the builtin\'s parameter, v widened without loss, never routed through a floating type narrower than IntT; gcd is the Euclid loop', 16)
     ctx.rule('C20-R2', 'Vector2/3/4: every binary and compound operator is component-wise with its own operator token; == conjoins all components; < is the lexicographic ladder; dot/norm2 sum like-indexed products; cross has the cyclic pattern; at(i) indexes the object as an array of T; Matrix4 element-wise operators likewise', 70)
     ctx.rule('C20-R3', 'Matrix4: M*v uses m[j][i] as the coefficient of v_j in row i; M*N accumulates this.m[z][y]*other.m[x][z] into res.m[x][y]; transposition swaps indices; invert applies every row operation to both matrices over all four columns', 12)
-    ctx.rule('C20-R6', 'no const reference (local, or parameter of a local helper) in the vector / matrix code is bound to an element that is overwritten while the reference is still read', 1)
+    ctx.rule('C20-R6', 'no const reference (local, or parameter of a local helper) in the vector / matrix code is bound to an element that is overwritten while the reference is still read; every row operation of Matrix4::invert runs over all four columns', 1)
     ctx.rule('C20-R5', 'random_data: every copy writes through the one destination cursor the refill loop advances; each turn copies, subtracts and advances by the same amount before refilling; the tail takes exactly the remaining bytes from the pool', 3)
     ctx.rule('C20-R4', 'random_int: every return is low + (U % range) with U an unsigned random value at least as wide as the range class chosen by the thresholds', 5)
     w = ctx.unit(witness_unit('c20.cc'))
@@ -329,6 +329,30 @@ def run(ctx):
                     ctx.bad(R, key, c_, 'the helper takes `%s` by const reference and is called with %s, an element of the object it modifies (`%s`) while it still reads the parameter: the factor changes in the middle of the row operation (take it by value)' % (p_.get('name'), src_text(kids(c_)[2 + [x_['id'] for x_ in params_of(enclosing(wn, ('CXXMethodDecl',)) or {'inner': []})].index(p_['id'])] if enclosing(wn, ('CXXMethodDecl',)) is not None else c_, 40), src_text(wn, 50)))
                 else:
                     ctx.undecided(R, key, c_, 'a const reference parameter may alias an element the helper writes (indices not comparable)')
+    with ctx.section('C20-R6', 'Vector-inl.hh'):
+        # a row operation of the inversion covers the whole row of both halves of the augmented matrix:
+        # every loop that updates m[x][row] over its own index x runs x = 0 .. 3
+        for f in w.functions:
+            q = strip_targs(w.qualname(f))
+            if not q.startswith('phosg::Matrix4') or f.get('name') != 'invert' or is_dependent_pattern(f, w) or body_of(f) is None:
+                continue
+            seen_ = set()
+            for lp_ in walk(body_of(f)):
+                if lp_.get('kind') != 'ForStmt' or lp_.get('_off') in seen_:
+                    continue
+                init_, cv_, cond_, inc_, lb_ = for_parts(lp_)
+                vd_ = next((x for x in walk(init_) if x.get('kind') == 'VarDecl'), None) if init_ else None
+                if vd_ is None or not kids(vd_):
+                    continue
+                upd_ = [x for x in walk(lb_) if x.get('kind') == 'CompoundAssignOperator' and strip(x['inner'][0]).get('kind') == 'ArraySubscriptExpr' and
+                        strip(strip(x['inner'][0])['inner'][0]).get('kind') == 'ArraySubscriptExpr' and (ref_decl(strip(strip(x['inner'][0])['inner'][0])['inner'][1]) or {}).get('id') == vd_['id']]
+                if not upd_ or any(y.get('kind') == 'ForStmt' for y in walk(lb_) if y is not lp_):
+                    continue
+                seen_.add(lp_.get('_off'))
+                r_ = relation(cond_, True) if cond_ is not None else None
+                full = int_value(kids(vd_)[-1]) == 0 and r_ is not None and (ref_decl(r_[0]) or {}).get('id') == vd_['id'] and ((r_[1] == '<' and int_value(r_[2]) == 4) or (r_[1] == '<=' and int_value(r_[2]) == 3))
+                ctx.check(full, 'C20-R6', '%s|invert|row-op-covers-row@%s' % (w.qualname(f), lp_.get('_line')), lp_, 'the row operation runs over all four columns',
+                          'the row operation `%s` runs over `%s` only: the inverse being accumulated in *this is not zero left of the diagonal, so part of the row is left unmodified and M * inverse(M) is not the identity' % (src_text(upd_[0], 50), src_text(lp_, 40).split('{')[0]))
     with ctx.section('C20-R3', 'Vector-inl.hh'):
         R = 'C20-R3'
         for T in ('long', 'double'):
@@ -518,7 +542,8 @@ def run(ctx):
                         return True
                     rd_ = ref_decl(amount_expr) if amount_expr is not None else None
                     vd_ = next((v_ for v_ in walk(lp) if v_.get('kind') == 'VarDecl' and rd_ is not None and v_.get('id') == rd_.get('id')), None)
-                    return vd_ is not None and vd_.get('_off', 0) < refill[0].get('_off', 0) and 'const' in (qtype(vd_) or '')
+                    never_written = vd_ is not None and not any(x_.get('kind') in ('BinaryOperator', 'CompoundAssignOperator', 'UnaryOperator') and x_.get('opcode') in tuple(ASSIGN_OPS) + ('++', '--') and kids(x_) and (ref_decl(x_['inner'][0]) or {}).get('id') == vd_.get('id') for x_ in walk(rb))
+                    return vd_ is not None and vd_.get('_off', 0) < refill[0].get('_off', 0) and ('const' in (qtype(vd_) or '') or never_written)
                 acct = [(lcopy[0], call_args(lcopy[0])[2])] + [(a, a['inner'][1]) for a in advs if any(a is z for z in walk(lp)) and a.get('opcode') == '+='] + \
                     [(x, x['inner'][1]) for x in walk(lp) if x.get('kind') == 'CompoundAssignOperator' and x.get('opcode') == '-=' and (ref_decl(x['inner'][0]) or {}).get('id') in cnt_ids]
                 order = bool(refill) and all(_before_refill(y, e_) for y, e_ in acct) and all(y.get('_off', 0) < refill[0].get('_off', 0) for y in [a for a in advs if any(a is z for z in walk(lp)) and a.get('opcode') != '+='])
@@ -538,6 +563,16 @@ def run(ctx):
                 srcs_ = {renorm(x_) for x_ in ('(buffer.data() + buffer.size() + -%s)' % cn_, '((buffer.data() + buffer.size()) - %s)' % cn_, '(buffer.data() + (buffer.size() - %s))' % cn_, '(-%s + buffer.data() + buffer.size())' % cn_)}
                 if nf(a[2]) == cn_ and renorm(_sl(nf(a[1]), a[1])) in srcs_ and len(rs) == 1 and renorm(_sl(nf(call_args(rs[0])[0]), rs[0])) == renorm('(buffer.size() - %s)' % cn_):
                     okt = True
+                # &buffer[K] with K = buffer.size() - n is the same address
+                s1 = strip(a[1])
+                while s1 is not None and s1.get('kind') in ('ImplicitCastExpr', 'ParenExpr', 'CStyleCastExpr', 'CXXReinterpretCastExpr', 'CXXStaticCastExpr') and kids(s1):
+                    s1 = strip(kids(s1)[0])
+                if not okt and s1 is not None and s1.get('kind') == 'UnaryOperator' and s1.get('opcode') == '&':
+                    e1 = strip(kids(s1)[0])
+                    if e1.get('kind') == 'CXXOperatorCallExpr' and call_name(e1) == 'operator[]' and canon(kids(e1)[1]) == 'buffer':
+                        kx = renorm(_sl(nf(kids(e1)[2]), kids(e1)[2]))
+                        if nf(a[2]) == cn_ and kx == renorm('(buffer.size() - %s)' % cn_) and len(rs) == 1 and renorm(_sl(nf(call_args(rs[0])[0]), rs[0])) == renorm('(buffer.size() - %s)' % cn_):
+                            okt = True
             why = 'tail copies %s bytes from %s, then resize(%s)' % (nf(a[2]), nf(a[1]), nf(call_args(rs[0])[0]) if rs else '?')
         ctx.check(okt, R, 'random_data|tail', tail[0] if tail else rdf, 'the remaining bytes come from the end of the pool and are removed from it', 'the final copy does not take exactly the remaining bytes from the pool and drop them: ' + why)
     ctx.note('Vector classes instantiated for int64_t (all members) and double (cross, dot, <); Matrix4 for int64_t and double. Not decided: reduce_fraction coprimality, inverse accuracy.')
